@@ -134,6 +134,52 @@ def setup_repo_import():
                            % (mf, core.REPO))
 
 
+WIRING = {
+    # private names the harness relies on, per property: if a refactor
+    # removes one the check is inconclusive (exit 2), not a violation
+    'vnet': ['minecraft.networking.connection:socket',
+             'minecraft.networking.connection:select',
+             'minecraft.networking.connection:NetworkingThread',
+             'minecraft.networking.connection:NetworkingThread._run',
+             'minecraft.networking.connection:Connection._connect',
+             'minecraft.networking.connection:PacketReactor.read_packet',
+             'minecraft.networking.connection:LoginReactor',
+             'minecraft.networking.connection:PlayingReactor'],
+    'sched': ['minecraft.networking.connection:deque',
+              'minecraft.networking.connection:Connection.'
+              '_start_network_thread'],
+    'writer': ['minecraft.networking.connection:Connection._write_packet',
+               'minecraft.networking.packets:PacketBuffer'],
+}
+USES = {'C01': ['vnet', 'writer'], 'C09': ['vnet'], 'C10': ['vnet'],
+        'C11': ['vnet'], 'C12': ['vnet', 'sched', 'writer'],
+        'C13': ['vnet'], 'C14': ['vnet'], 'C15': ['vnet'],
+        'C16': ['vnet', 'sched'], 'C18': ['vnet']}
+
+
+def check_wiring(pid):
+    import importlib
+    missing = []
+    for group in USES.get(pid, []):
+        for item in WIRING[group]:
+            modname, path = item.split(':')
+            try:
+                obj = importlib.import_module(modname)
+                for part in path.split('.'):
+                    obj = getattr(obj, part)
+            except (ImportError, AttributeError):
+                missing.append(item)
+    if pid in ('C01', 'C12', 'C16'):
+        from minecraft.networking.connection import Connection
+        c = Connection('localhost', allowed_versions={757})
+        if not hasattr(c, '_write_lock'):
+            missing.append('Connection()._write_lock')
+    if missing:
+        raise HarnessError('harness wiring: %s not found in this tree; the '
+                           'check cannot observe the property (inconclusive)'
+                           % ', '.join(missing))
+
+
 def _run_task(args):
     pid, tier, seed, idx = args
     try:
@@ -315,6 +361,7 @@ def main(argv):
         tier = argv[1]
         if tier not in ('quick', 'thorough'):
             raise HarnessError('bad tier %r' % tier)
+        check_wiring(pid)
         results = [run_corpus(pid, mod, tier, seed)]
         results += run_tasks(pid, tier, seed, mod)
         m = merge(results)
